@@ -20,6 +20,7 @@ import (
 	"errors"
 	"fmt"
 	"regexp/syntax"
+	"sort"
 	"sync"
 )
 
@@ -132,6 +133,16 @@ func (d *typeDictionary) typedefs() []*Typedef {
 			tds = append(tds, td)
 		}
 	}
+	// Return the typedefs in the order of their source locations rather
+	// than in the iteration order of the maps, so that what is reported for
+	// them (e.g., which member of a cycle) does not change from run to run.
+	sort.SliceStable(tds, func(i, j int) bool {
+		si, sj := Source(tds[i]), Source(tds[j])
+		if si != sj {
+			return si < sj
+		}
+		return tds[i].Name < tds[j].Name
+	})
 	return tds
 }
 
